@@ -39,6 +39,7 @@ class TieController:
 
 
 CTL = TieController()
+CAP_HITS = [0]   # number of worlds on which the per-world cap on tie-order plans was reached (reported in the evidence)
 
 
 def _is_hta_caller(depth: int = 2) -> Optional[str]:
@@ -146,6 +147,7 @@ def explore_ties(run, max_dev: int = 1, with_reverse: bool = True, cap: int = 64
                 if size == 2 and len(groups) == 1 and with_reverse:
                     continue  # identical to 'reverse'
                 if n >= cap:
+                    CAP_HITS[0] += 1
                     return
                 n += 1
                 plan = {(c, g): p}
@@ -160,6 +162,7 @@ def explore_ties(run, max_dev: int = 1, with_reverse: bool = True, cap: int = 64
             for pa in perms_for(a[2])[:1]:
                 for pb in perms_for(b[2])[:1]:
                     if n >= cap:
+                        CAP_HITS[0] += 1
                         return
                     n += 1
                     plan = {(a[0], a[1]): pa, (b[0], b[1]): pb}
